@@ -150,8 +150,8 @@ def _has_call(e, name=None):
 CALLEE_BODIES_SMALL = tuple(exprs(1, 'expre')) + tuple(exprs(2, 'expre'))
 
 
-def small_grammars(max_rules=2, max_nodes=4, callee_nodes=2, second_names=('r', 'R'), canonical_only=True):
-    """grammar descriptions, exhaustively:
+def small_grammars(max_rules=2, max_nodes=4, callee_nodes=2, second_names=('r', 'R'), leaves='full'):
+    """grammar descriptions, exhaustively and without structural duplicates:
 
     * one rule `start` whose body has <= max_nodes nodes;
     * (max_rules >= 2) two rules: `start` with <= max_nodes - 1 nodes containing at least one call to the
@@ -159,29 +159,15 @@ def small_grammars(max_rules=2, max_nodes=4, callee_nodes=2, second_names=('r', 
       <= callee_nodes nodes which does not call anything (left recursion is C03's business).
     """
     seen = set()
-    for n in range(1, max_nodes + 1):
-        for body in exprs(n, 'expre'):
-            d = (('start', body),)
-            if canonical_only and not canonical(d):
-                continue
+    for d in single_rule(max_nodes, leaves):
+        if d not in seen:
+            seen.add(d)
+            yield d
+    if max_rules >= 2:
+        for d in two_rule(max_nodes - 1, callee_nodes, leaves, leaves, second_names):
             if d not in seen:
                 seen.add(d)
                 yield d
-    if max_rules < 2:
-        return
-    for callee in second_names:
-        for n in range(1, max_nodes):
-            for body in exprs(n, 'expre', (callee,)):
-                if not _has_call(body, callee):
-                    continue
-                for m in range(1, callee_nodes + 1):
-                    for cbody in exprs(m, 'expre'):
-                        d = (('start', body), (callee, cbody))
-                        if canonical_only and not canonical(d):
-                            continue
-                        if d not in seen:
-                            seen.add(d)
-                            yield d
 
 
 def inputs(alphabet='ab ', maxlen=4):
@@ -223,6 +209,45 @@ def _ch(*xs):
 
 
 _CUT = ('cut',)
+
+
+def single_rule(max_nodes, leaves='full', name='start', exact=False):
+    out = []
+    for n in range(max_nodes if exact else 1, max_nodes + 1):
+        for body in exprs(n, 'expre', (), leaves):
+            d = ((name, body),)
+            if canonical(d):
+                out.append(d)
+    return out
+
+
+def two_rule(start_nodes, callee_nodes, leaves='full', callee_leaves='full', names=('r', 'R'), exact=False,
+             callees=None):
+    out = []
+    if callees is None:
+        callees = [c for m in range(1, callee_nodes + 1) for c in exprs(m, 'expre', (), callee_leaves)]
+    for callee in names:
+        for n in range(start_nodes if exact else 1, start_nodes + 1):
+            for body in exprs(n, 'expre', (callee,), leaves):
+                if not _has_call(body, callee):
+                    continue
+                for cbody in callees:
+                    d = (('start', body), (callee, cbody))
+                    if canonical(d):
+                        out.append(d)
+    return out
+
+
+# one callee per shape a rule value can take (str, None, list, closed list, dict, override of each kind) and
+# one that fails after a cut
+CALLEES = (
+    _T('a'), ('pat', 'a+'), ('void',), ('opt', _T('a')), ('closure', _T('a')), _seq(_T('a'), _T('b')),
+    ('named', 'x', _T('a')), ('override', _T('a')), ('overridelist', _T('a')),
+    ('override', ('group', _seq(_T('a'), _T('b')))), _seq(_T('a'), ('cut',), _T('b')),
+)
+
+# all inputs over {a,b} up to length 3 and the blank in every position relative to one or two letters
+IN_MID = tuple(inputs('ab', 3)) + (' a', 'a ', 'a b', 'b a', ' ab', 'ab ', 'a a', 'b b')
 
 
 def _with_cut(elems, pos):
